@@ -10,6 +10,7 @@ import (
 	"encoding/json"
 	"fmt"
 	"os"
+	"runtime"
 	"sync/atomic"
 	"unicode/utf8"
 
@@ -339,3 +340,6 @@ func Run(h func()) (failures []string, obs []string, panicked any, assumeEnded b
 // words from the replay file, so that internal random choices (skip-list tower heights) follow the
 // counterexample.  No-op under the engine, where math/rand is a symbolic stub.
 func SteerRand(obj any) { steerRand(obj) }
+
+// Gate is a scheduling point under the engine (other goroutines may run here); natively it yields.
+func Gate() { runtime.Gosched() }
